@@ -17,6 +17,7 @@ from .interp import (
     VDict,
     VIterDone,
     PathCut,
+    Infeasible,
     _Return,
     exc,
     truthy,
@@ -250,16 +251,23 @@ def apply_spec_generic(it, c, locs, fr, node, label):
     ctx = it.ctx
     cfr = Frame(it.registry.globals_for(c) if hasattr(c, 'file') and c.file else fr.globs, dict(locs), None, c, getattr(c, 'file', None), label + '<call>')
     # ghost/lets of the callee evaluated over the caller's actuals
+    local_ghosts = []
     for gname, gspec in (c.ghost or {}).items():
         # a ghost of the callee (clock, stream position...) is the caller's ghost of the same name
         try:
             cfr.locs[gname] = fr.lookup(gname)
         except Unsupported:
+            if getattr(gspec, 'kind', None) == 'const':
+                cfr.locs[gname] = _wrap_const(gspec.value)  # a counter local to the callee
+                local_ghosts.append(gname)
+                continue
             raise Unsupported(f'callee {label} needs ghost `{gname}` which the caller does not declare')
     if c.result is None and c.result_value is None and any('result' in r and 'result is None' not in r for r in (c.ensures or ()) if isinstance(r, str)):
         raise Unsupported(f'contract of {label} is used at a call site but declares no result shape')
     old_locs = dict(cfr.locs)
     cfr.locs['old!'] = _snapshot(old_locs)
+    for gname in local_ghosts:
+        cfr.locs[gname] = ctx.fresh(f'{label}!{gname}')  # final value of a callee-local counter: constrained by ensures only
     for name, src in (c.lets or {}).items():
         cfr.locs[name] = it.spec_eval(src, cfr)
     for k, r in enumerate(c.requires or ()):
@@ -297,8 +305,14 @@ def apply_spec_generic(it, c, locs, fr, node, label):
     cfr.locs['result'] = res
     if c.effect:
         c.effect(it, cfr, fr)
-    for r in c.ensures or ():
-        ctx.assume(it.spec_eval(r, cfr))
+    try:
+        for r in c.ensures or ():
+            ctx.assume(it.spec_eval(r, cfr))
+        if (c.ensures or c.effect) and not ctx.spec_mode and ctx.solver.check() == z3.unsat:
+            raise Infeasible()
+    except Infeasible:
+        # vacuity guard: a callee contract that contradicts the call-site state would silently prune the path
+        raise Unsupported(f'contract of {label} is contradictory at this call site (line {getattr(node, "lineno", "?")} of {fr.qualname})')
     return res
 
 
@@ -1111,7 +1125,24 @@ def sf_isexc(it, e, fr):
     raise Unsupported('isexc')
 
 
+def sf_voff(it, e, fr):
+    v = it.eval(e.args[0], fr)
+    if isinstance(v, VBytes) and not v.pieces:
+        return 0
+    if not isinstance(v, VBytes) or len(v.pieces) != 1 or v.pieces[0].kind != 'view':
+        raise Unsupported('voff() of a value that is not a single view')
+    return v.pieces[0].off
+
+
+def sf_sameview(it, e, fr):
+    from .interp import subview_formula
+
+    return subview_formula(it.eval(e.args[0], fr), it.eval(e.args[1], fr))
+
+
 SPEC_FORMS = {
+    'voff': sf_voff,
+    'subview': sf_sameview,
     'old': sf_old,
     'implies': sf_implies,
     'iff': sf_iff,
